@@ -26,7 +26,7 @@ fn menu(acc: &mut Acc, e: &Envelope, label: &dyn Fn() -> String, collect: Option
     ds.push(families::absent_digest());
     let k = ds.len();
     let mut out = collect;
-    for mask in 0u32..(1u32 << k) {
+    for mask in families::masks(k) {
         let t: Vec<D> = (0..k).filter(|i| mask >> i & 1 == 1).map(|i| ds[i]).collect();
         let tset = bind::dset(&t);
         for revealing in [false, true] {
@@ -114,7 +114,7 @@ pub fn run(ctx: &Ctx) -> i32 {
     }).reduce(Acc::new, Acc::merge);
     let evals = acc.get("obscurings_first_pass") + acc.get("obscurings_second_pass") + acc.get("whole_envelope_ops");
     let cov = json!({"evaluations": evals,
-        "rule": "case = (envelope, target subset incl. one absent digest, mode, action); non-trivial = the result differs from the input (something was obscured); distinct by (root digest, subset, mode, action)",
+        "rule": "(all subsets for envelopes with at most 10 distinct digests - every tree of the weight-bounded families; for the hand-built decode-only shapes with more, the empty / singleton / pair / full target sets) case = (envelope, target subset incl. one absent digest, mode, action); non-trivial = the result differs from the input (something was obscured); distinct by (root digest, subset, mode, action)",
         "exhaustive": true,
         "bounds": {"first_pass_tree_weight": w1, "second_pass_tree_weight": w2, "decode_only_shapes": families::decode_only().len()}});
     finish(ctx, acc, "exploration", cov, vec!["trees heavier than the bound and atoms outside the alphabet are not covered".into(),
